@@ -5,6 +5,7 @@ package centrifuge
 
 import (
 	"context"
+	"time"
 
 	"github.com/centrifugal/centrifuge/internal/queue"
 	"github.com/centrifugal/protocol"
@@ -296,4 +297,56 @@ func vh_C37_client_slow() {
 		vAssert(!tr.closed && len(tr.frames) == base+sent, "all pushes delivered, connection kept")
 		vCover(pending == max, "exactly-at-limit-kept")
 	}
+}
+
+// (d') the limit is for the stalled peer: while a write to the transport is
+// parked (timer-driven flush, which holds the writer lock for the whole
+// write, or the dedicated writer goroutine), an enqueue that takes the
+// pending bytes over MaxQueueSize must still report DisconnectSlow - it must
+// not wait for the stalled write to return.
+func vh_C37_queue_stalled_write() {
+	max := vRange("max_queue_size", 1, 16)
+	release := make(chan struct{})
+	stalled := false
+	park := func() {
+		stalled = true
+		<-release
+		stalled = false
+	}
+	w := newWriter(writerConfig{
+		MaxQueueSize: max,
+		WriteFn:      func(item queue.Item) error { park(); return nil },
+		WriteManyFn:  func(items ...queue.Item) error { park(); return nil },
+	}, 0)
+	timerMode := vChoice("timer_mode", 2) == 1
+	const delay = 10 * time.Millisecond
+	if timerMode {
+		w.run(delay, 0, 0, true)
+	} else {
+		go w.run(0, 0, 0, false)
+	}
+	vAssert(w.enqueue(queue.Item{Data: make([]byte, 1)}) == nil, "first item accepted")
+	vSettle()
+	if timerMode {
+		vAdvance(int64(delay))
+		vSettle()
+	}
+	vAssert(stalled, "the transport write is parked")
+	many := vChoice("many", 2) == 1
+	var got *Disconnect
+	returned := false
+	go func() {
+		if many {
+			got = w.enqueueMany(queue.Item{Data: make([]byte, 9)}, queue.Item{Data: make([]byte, 8)})
+		} else {
+			got = w.enqueue(queue.Item{Data: make([]byte, 17)})
+		}
+		returned = true
+	}()
+	vSettle()
+	vAssert(returned, "enqueue over the limit does not wait for the stalled write")
+	vAssert(got != nil && got.Code == DisconnectSlow.Code, "DisconnectSlow while the write is stalled")
+	vCover(timerMode, "timer-mode")
+	close(release)
+	vSettle()
 }
